@@ -1,5 +1,4 @@
-import MetadorModel.Gen.FindFilesFns
-import MetadorModel.Proofs.FindFiles
+import MetadorModel.Bridge.FindFilesFnsValid
 /-!
 Bridge between the Lean text generated from `ih5/record.py` in /repo (`Gen/FindFilesFns.lean`,
 regenerated on every run by `harness/translate_c03.py`) and the hand-written model the C03 (and
@@ -9,261 +8,14 @@ A change of `_is_valid_record_name`, `_infer_name`, `find_files`, `_next_patch_f
 mode dispatch of `IH5Record.__init__`, of the three class constants or of `OpenMode` changes the
 generated definitions and these equalities have to be re-proved.
 
-The first part is about the dictionary only (`Py/RecordPy.lean`): what the generic regular
-expression / glob / `split` / `str(int)` / index operations compute on the shapes that occur.
+This module: `find_files`. The other translated functions are bridged in
+`Bridge/FindFilesFnsValid.lean` (`_is_valid_record_name`),
+`Bridge/FindFilesFnsName.lean` (constants, `_infer_name`, `_next_patch_filepath`) and
+`Bridge/FindFilesFnsInit.lean` (`__init__`), so that a broken obligation is attributed; the lemmas
+about the dictionary alone are in `Bridge/FindFilesFnsDict.lean`.
 -/
 namespace MetadorModel.Bridge.FindFilesFns
 open MetadorModel MetadorModel.FindFiles MetadorModel.Record MetadorModel.RecordPy
-
-/-! ## dictionary lemmas -/
-
-theorem pyStartswith_eq : ∀ (s p : Str), pyStartswith s p = startsWith s p
-  | _, [] => by simp [pyStartswith, startsWith]
-  | [], _ :: _ => by simp [pyStartswith, startsWith]
-  | c :: s, d :: p => by simp [pyStartswith, startsWith, pyStartswith_eq s p]
-
-theorem char_eq_iff_toNat (c d : Char) : c = d ↔ c.toNat = d.toNat := by
-  constructor
-  · rintro rfl; rfl
-  · intro h
-    apply Char.ext
-    apply UInt32.toNat_inj.mp
-    exact h
-
-/-- the character class `[A-Za-z0-9\-]` as parsed by `re` -/
-def nameClass : List ClassItem := [.range 'A' 'Z', .range 'a' 'z', .range '0' '9', .chr '-']
-
-theorem nameClass_ok (c : Char) : (Atom.cls false nameClass).ok c = isNameChar c := by
-  have h45 : (c == '-') = (c.toNat == 45) := by
-    rw [Bool.eq_iff_iff]; simp only [beq_iff_eq]
-    exact char_eq_iff_toNat c '-'
-  simp [Atom.ok, nameClass, ClassItem.ok, isNameChar, h45, Bool.or_assoc]
-
-theorem nameClass_neg_ok (c : Char) : (Atom.cls true nameClass).ok c = !isNameChar c := by
-  rw [← nameClass_ok]
-  simp [Atom.ok]
-
-/-- pasted literal text: a prefix test, then the rest of the pattern on the rest of the text -/
-theorem matchItems_interp (r : List Item) : ∀ (n : Str) (st : Bool) (f : Str),
-    matchItems (pyReInterp n ++ r) st f =
-      (startsWith f n && matchItems r (st && n.isEmpty) (f.drop n.length))
-  | [], st, f => by simp [pyReInterp, startsWith]
-  | d :: n, st, [] => by simp [pyReInterp, matchItems, startsWith]
-  | d :: n, st, c :: f => by
-    have ih := matchItems_interp r n false f
-    simp only [pyReInterp] at ih
-    simp [pyReInterp, matchItems, startsWith, Atom.ok, ih, Bool.and_assoc]
-
-theorem matchItems_interp_eosZ : ∀ (e : Str) (st : Bool) (s : Str),
-    matchItems (pyReInterp e ++ [.eosZ]) st s = (s == e)
-  | [], st, s => by cases s <;> simp [pyReInterp, matchItems]
-  | d :: e, st, [] => by simp [pyReInterp, matchItems]
-  | d :: e, st, c :: s => by
-    have ih := matchItems_interp_eosZ e false s
-    simp only [pyReInterp] at ih
-    simp [pyReInterp, matchItems, Atom.ok, ih]
-
-theorem starK_any_suffix (e : Str) : ∀ (st : Bool) (s : Str),
-    starK .any (matchItems (pyReInterp e ++ [.eosZ])) st s = endsWith s e
-  | st, [] => by
-    rw [starK, matchItems_interp_eosZ, Bool.eq_iff_iff, endsWith_iff]
-    simp only [beq_iff_eq]
-    constructor
-    · intro h; exact ⟨[], by simp [← h]⟩
-    · rintro ⟨t, h⟩
-      have := congrArg List.length h
-      simp at this
-      exact (List.eq_nil_of_length_eq_zero (by omega)).symm
-  | st, c :: s => by
-    rw [starK, matchItems_interp_eosZ, starK_any_suffix e false s, Bool.eq_iff_iff]
-    simp only [Atom.ok, Bool.true_and, Bool.or_eq_true, beq_iff_eq, endsWith_iff]
-    constructor
-    · rintro (h | ⟨t, h⟩)
-      · exact ⟨[], by simp [h]⟩
-      · exact ⟨c :: t, by simp [h]⟩
-    · rintro ⟨t, h⟩
-      cases t with
-      | nil => left; simpa using h
-      | cons x t =>
-        right
-        simp only [List.cons_append, List.cons.injEq] at h
-        exact ⟨t, h.2⟩
-
-theorem globToRe_interp (g : List GItem) : ∀ (n : Str),
-    globToRe (pyGlobInterp n ++ g) = pyReInterp n ++ globToRe g
-  | [] => rfl
-  | c :: n => by
-    have ih := globToRe_interp g n
-    simp only [pyGlobInterp, pyReInterp] at ih
-    simp [pyGlobInterp, pyReInterp, globToRe, ih]
-
-/-- `fnmatch` of `<n>*<e>` -/
-theorem glob_prefix_star_suffix (n e f : Str) :
-    pyReMatch (globToRe (pyGlobInterp n ++ .star :: pyGlobInterp e)) f =
-      (startsWith f n && endsWith (f.drop n.length) e) := by
-  have h2 : globToRe (.star :: pyGlobInterp e) = .star .any :: (pyReInterp e ++ [.eosZ]) := by
-    have := globToRe_interp [] e
-    simp only [List.append_nil] at this
-    simp [globToRe, this]
-  rw [pyReMatch, globToRe_interp, h2, matchItems_interp]
-  simp only [matchItems]
-  rw [starK_any_suffix]
-
-/-- `^<n>[^class]` -/
-theorem re_prefix_then_atom (n f : Str) (a : Atom) :
-    pyReMatch ([.bos] ++ pyReInterp n ++ [.atom a]) f =
-      (startsWith f n &&
-        (match f.drop n.length with
-         | c :: _ => a.ok c
-         | [] => false)) := by
-  have := matchItems_interp [.atom a] n true f
-  rw [pyReMatch]
-  change (true && matchItems (pyReInterp n ++ [.atom a]) true f) = _
-  rw [Bool.true_and, this]
-  congr 1
-  cases f.drop n.length <;> first | rfl | simp [matchItems]
-
-/-- `[class]+$` on what follows the first character -/
-theorem starK_class_eos (a : Atom) (nc : Char → Bool) (ha : ∀ c, a.ok c = nc c) (hnl : nc '\n' = false) :
-    ∀ (st : Bool) (s : Str),
-      starK a (matchItems [.eos]) st s = true ↔
-        ((∀ c ∈ s, nc c = true) ∨ ∃ init, s = init ++ ['\n'] ∧ ∀ c ∈ init, nc c = true)
-  | st, [] => by simp [starK, matchItems]
-  | st, c :: s => by
-    rw [starK, Bool.or_eq_true, Bool.and_eq_true, starK_class_eos a nc ha hnl false s, ha]
-    simp only [matchItems, Bool.and_true, Bool.or_eq_true, beq_iff_eq, reduceCtorEq, false_or,
-      List.cons.injEq, List.mem_cons, forall_eq_or_imp]
-    constructor
-    · rintro (⟨rfl, rfl⟩ | ⟨hc, h | ⟨init, rfl, hi⟩⟩)
-      · exact Or.inr ⟨[], rfl, by simp⟩
-      · exact Or.inl ⟨hc, h⟩
-      · exact Or.inr ⟨c :: init, rfl, by simpa [hc] using hi⟩
-    · rintro (⟨hc, h⟩ | ⟨init, h, hi⟩)
-      · exact Or.inr ⟨hc, Or.inl h⟩
-      · cases init with
-        | nil =>
-          simp only [List.nil_append, List.cons.injEq] at h
-          exact Or.inl h
-        | cons d init =>
-          simp only [List.cons_append, List.cons.injEq] at h
-          obtain ⟨rfl, rfl⟩ := h
-          exact Or.inr ⟨hi c (by simp), Or.inr ⟨init, rfl, fun x hx => hi x (by simp [hx])⟩⟩
-
-theorem pyHead_splitGo (sep : Str) : ∀ (s cur : Str),
-    pyHead (pySplitGo sep 0 s cur) = cur.reverse ++ splitFirst sep s
-  | [], cur => by simp [pySplitGo, pyHead, splitFirst]
-  | c :: r, cur => by
-    rw [pySplitGo, splitFirst, pyStartswith_eq]
-    split
-    · simp [pyHead]
-    · rw [pyHead_splitGo sep r (c :: cur)]; simp
-
-/-- `s.split(sep)[0]` -/
-theorem pyHead_pySplit (s sep : Str) : pyHead (pySplit s sep) = splitFirst sep s := by
-  simp [pySplit, pyHead_splitGo]
-
-theorem digitChar_eq (d : Nat) (h : d < 10) : Nat.digitChar d = digitChar d := by
-  have : d = 0 ∨ d = 1 ∨ d = 2 ∨ d = 3 ∨ d = 4 ∨ d = 5 ∨ d = 6 ∨ d = 7 ∨ d = 8 ∨ d = 9 := by omega
-  rcases this with rfl | rfl | rfl | rfl | rfl | rfl | rfl | rfl | rfl | rfl <;> rfl
-
-theorem toDigitsCore_eq : ∀ (fuel n : Nat) (acc : List Char),
-    Nat.toDigitsCore 10 (fuel + 1) n acc = decimalAux (fuel + 1) n acc
-  | 0, n, acc => by
-    simp only [Nat.toDigitsCore, decimalAux]
-    by_cases h : n < 10
-    · have h0 : n / 10 = 0 := by omega
-      have h1 : n % 10 = n := by omega
-      simp [h, h0, h1, digitChar_eq n h]
-    · have h0 : n / 10 ≠ 0 := by omega
-      simp [h, h0, digitChar_eq (n % 10) (by omega)]
-  | fuel + 1, n, acc => by
-    rw [Nat.toDigitsCore, decimalAux]
-    by_cases h : n < 10
-    · have h0 : n / 10 = 0 := by omega
-      have h1 : n % 10 = n := by omega
-      simp [h, h0, h1, digitChar_eq n h]
-    · have h0 : n / 10 ≠ 0 := by omega
-      simp only [h, h0, if_false]
-      rw [toDigitsCore_eq fuel, digitChar_eq (n % 10) (by omega)]
-
-/-- `str(n)` -/
-theorem pyStrNat_eq (n : Nat) : pyStrNat n = decimal n := by
-  simp [pyStrNat, Nat.toDigits, decimal, toDigitsCore_eq]
-
-theorem pyIdx_zero {α : Type} (l : List α) :
-    pyIdx l 0 = match l with | [] => .error .indexError | x :: _ => .ok x := by
-  cases l <;> simp [pyIdx]
-
-theorem lastFile_eq_getLast? : ∀ (l : List (Name × UB)), lastFile l = l.getLast?
-  | [] => rfl
-  | [_] => rfl
-  | _ :: y :: r => by rw [lastFile, lastFile_eq_getLast? (y :: r)]; simp [List.getLast?_cons_cons]
-
-theorem pyIdx_last (l : List (Name × UB)) :
-    pyIdx l (-1) = match lastFile l with | none => .error .indexError | some x => .ok x := by
-  rw [lastFile_eq_getLast?]
-  cases l with
-  | nil => simp [pyIdx]
-  | cons a r =>
-    have h1 : ((-1 : Int) + ((a :: r).length : Int)) = (r.length : Int) := by
-      simp only [List.length_cons]; omega
-    have h2 : ¬ ((r.length : Int) < 0) := by omega
-    simp only [pyIdx, h1, h2, if_false, Int.toNat_natCast, show ((-1 : Int) < 0) from by decide, if_true]
-    rw [List.getLast?_eq_getElem?]
-    simp
-
-/-! ## the generated functions -/
-
-theorem gen_constants :
-    Gen.FindFilesFns.FILE_EXT = ext ∧ Gen.FindFilesFns.PATCH_INFIX = infix_ ∧
-    Gen.FindFilesFns.OPEN_MODES = [modeStr .r, modeStr .rp, modeStr .a, modeStr .w, modeStr .wm, modeStr .x] := by
-  decide
-
-/-- `_is_valid_record_name` (including the `$`-before-a-final-newline trap) -/
-theorem gen_is_valid_record_name (n : Name) :
-    Gen.FindFilesFns.is_valid_record_name n = isValidName n := by
-  rw [Bool.eq_iff_iff]
-  unfold Gen.FindFilesFns.is_valid_record_name pyReMatch
-  have hmodel : isValidName n = true ↔
-      (ValidName n ∨ ∃ init, n = init ++ ['\n'] ∧ ValidName init) := by
-    unfold isValidName
-    rw [Bool.or_eq_true, strictName_iff]
-    apply or_congr Iff.rfl
-    constructor
-    · intro h
-      split at h
-      · rename_i r hr
-        rw [List.reverse_eq_cons_iff] at hr
-        exact ⟨r.reverse, hr, (strictName_iff _).mp h⟩
-      · cases h
-    · rintro ⟨init, rfl, hv⟩
-      simp [(strictName_iff _).mpr hv]
-  rw [hmodel]
-  cases n with
-  | nil =>
-    simp [matchItems, ValidName]
-  | cons c s =>
-    change (true && ((Atom.cls false nameClass).ok c &&
-      starK (Atom.cls false nameClass) (matchItems [.eos]) false s)) = true ↔ _
-    rw [Bool.true_and, Bool.and_eq_true, nameClass_ok,
-      starK_class_eos (Atom.cls false nameClass) isNameChar nameClass_ok (by decide)]
-    unfold ValidName
-    constructor
-    · rintro ⟨hc, h | ⟨init, rfl, hi⟩⟩
-      · exact Or.inl ⟨by simp, by simpa [hc] using h⟩
-      · exact Or.inr ⟨c :: init, rfl, by simp, by simpa [hc] using hi⟩
-    · rintro (⟨_, h⟩ | ⟨init, h, hne, hi⟩)
-      · exact ⟨h c (by simp), Or.inl (fun x hx => h x (by simp [hx]))⟩
-      · cases init with
-        | nil => exact absurd rfl hne
-        | cons d init =>
-          simp only [List.cons_append, List.cons.injEq] at h
-          obtain ⟨rfl, rfl⟩ := h
-          exact ⟨hi c (by simp), Or.inr ⟨init, rfl, fun x hx => hi x (by simp [hx])⟩⟩
-
-/-- `_infer_name` -/
-theorem gen_infer_name (f : Name) : Gen.FindFilesFns.infer_name f = inferName f := by
-  simp [Gen.FindFilesFns.infer_name, inferName, pyHead_pySplit, gen_constants.1, gen_constants.2.1]
 
 /-- `find_files`: the glob, the false-positive filter and the `ValueError` for an invalid name -/
 theorem gen_find_files (dir : List Name) (n : Name) :
@@ -326,232 +78,5 @@ theorem gen_find_files_interp_plain (n : Name)
       · exact Or.inr (by simpa using h1)
     · cases h
 
-/-- `_next_patch_filepath`: name inferred from the oldest container, index of the newest + 1;
-`IndexError` on a record without files -/
-theorem gen_next_patch_filepath (files : List (Name × UB)) :
-    Gen.FindFilesFns.next_patch_filepath files =
-      (match files, lastFile files with
-       | (f0, _) :: _, some (_, ul) => .ok (patchFile (inferName f0) (ul.idx + 1))
-       | _, _ => .error .indexError) := by
-  unfold Gen.FindFilesFns.next_patch_filepath
-  rw [pyIdx_zero, pyIdx_last]
-  cases files with
-  | nil => rfl
-  | cons a r =>
-    cases h : lastFile (a :: r) with
-    | none => simp
-    | some x =>
-      simp [patchFile, gen_infer_name, pyStrNat_eq, gen_constants.1, gen_constants.2.1]
-
-/-- `create_patch` of the model takes its file name from (the translation of)
-`_next_patch_filepath` -/
-theorem gen_createPatch_path (s : State) (hc : s.h.closed = false) (ha : s.h.allow = true)
-    (hw : hasWritable s.h = false) :
-    createPatch s =
-      (match Gen.FindFilesFns.next_patch_filepath s.h.files, lastFile s.h.files with
-       | .ok path, some (_, ul) =>
-         (match newContainer s.disk (fileNames s.h) path (newPatchUB ul s.next) with
-          | .error e => fail { s with next := s.next + 1 } e
-          | .ok d =>
-            { st := { disk := d, next := s.next + 1,
-                      h := { s.h with files := s.h.files ++ [(path, newPatchUB ul s.next)], lastRW := true } },
-              out := .ok, created := [path] })
-       | _, _ => fail s .indexError) := by
-  rw [gen_next_patch_filepath]
-  unfold createPatch
-  simp only [hc, ha, hw, Bool.false_eq_true, if_false, Bool.not_true]
-  cases hf : s.h.files with
-  | nil => simp
-  | cons a r =>
-    cases hl : lastFile (a :: r) with
-    | none => simp
-    | some x => simp; rfl
-
-/-! ## `__init__` -/
-
-theorem loadAll_err (d : Disk) : ∀ (l : List Name) (e : Out), loadAll d l = .error e → e ≠ .ok
-  | [], e, h => by simp [loadAll] at h
-  | f :: r, e, h => by
-    unfold loadAll at h
-    split at h
-    · cases h; decide
-    · cases h; decide
-    · split at h
-      · rename_i e' he
-        cases h
-        exact loadAll_err d r _ he
-      · cases h
-
-theorem openFiles_err (d : Disk) (paths : List Name) (rw : Bool) (e : Out)
-    (h : openFiles d paths rw = .error e) : e ≠ .ok := by
-  unfold openFiles at h
-  split at h
-  · cases h; decide
-  · split at h
-    · rename_i e' he
-      cases h
-      exact loadAll_err d paths _ he
-    · split at h
-      · cases h; decide
-      · repeat' split at h
-        all_goals first | (cases h; decide) | cases h
-
-theorem openFiles_nonempty (d : Disk) (paths : List Name) (rw : Bool) (files : List (Name × UB))
-    (l : Bool) (h : openFiles d paths rw = .ok (files, l)) : files ≠ [] := by
-  unfold openFiles at h
-  repeat' split at h
-  all_goals first | (cases h; simp) | cases h
-
-theorem loadManifest_err (d : Disk) (files : List (Name × UB)) (e : Out)
-    (h : loadManifest d files = .error e) : e ≠ .ok := by
-  unfold loadManifest at h
-  repeat' split at h
-  all_goals first | (cases h; decide) | cases h
-
-/-- a failing `create_patch` leaves disk and handle alone and reports no touched files -/
-theorem createPatch_fail (s : State) (h : (createPatch s).out ≠ .ok) :
-    (createPatch s).st.disk = s.disk ∧ (createPatch s).st.h = s.h ∧ (createPatch s).created = [] ∧
-      (createPatch s).removed = [] ∧ (createPatch s).written = [] := by
-  revert h
-  unfold createPatch
-  simp only []
-  repeat' split
-  all_goals simp [fail]
-
-/-- the first effectful step of a constructor -/
-theorem pyStep_start (s : State) (op : State → Res) (k : Res → Res) :
-    pyStep (pyStart s) op k = (match (op s).out with | .ok => k (op s) | _ => op s) := by
-  unfold pyStep pyStart
-  generalize op s = r
-  rcases r with ⟨st, out, c, rm, w⟩
-  simp only [List.nil_append]
-  cases out <;> rfl
-
-/-- a last step after steps that touched nothing -/
-theorem pyStep_last (s' : State) (op : State → Res) :
-    pyStep { st := s', out := .ok } op (fun r => r) = op s' := by
-  unfold pyStep
-  simp only [List.nil_append]
-  split <;> rfl
-
-/-- what `__init__` does after the paths are known (second half of the `a`/`r*` branch) -/
-def openTail (w : Bool) (r1 : Res) : Res :=
-  let r2 := pySetAllow r1 w
-  if (w && !(pyHasWritable r2)) then pyStep r2 pyCreatePatch fun r3 => r3 else r2
-
-theorem open_chain (s : State) (mfcls : Bool) (paths : List Name) (m : Mode) :
-    pyCtor s (pyStep (pyStart s) (pyOpen mfcls (some paths) (m != .r)) (openTail (m != .r))) =
-      openExisting s mfcls paths m := by
-  rw [pyStep_start]
-  unfold openExisting
-  dsimp only
-  generalize (m != Mode.r) = w
-  cases ho : openFiles s.disk paths w with
-  | error e =>
-    have hop : pyOpen mfcls (some paths) w s = fail s e := by simp [pyOpen, ho]
-    have := openFiles_err _ _ _ _ ho
-    rw [hop]
-    cases e <;> simp_all [pyCtor, fail]
-  | ok fl =>
-    obtain ⟨files, lastRW⟩ := fl
-    have hne := openFiles_nonempty _ _ _ _ _ ho
-    have hfe : files.isEmpty = false := by cases files <;> simp_all
-    dsimp only
-    cases hm : (if mfcls then loadManifest s.disk files else .ok none) with
-    | error e =>
-      have hop : pyOpen mfcls (some paths) w s = fail s e := by
-        simp only [pyOpen, Option.getD_some, ho, hm]
-      have : e ≠ .ok := by
-        cases mfcls
-        · simp at hm
-        · exact loadManifest_err _ _ _ (by simpa using hm)
-      rw [hop]
-      cases e <;> simp_all [pyCtor, fail]
-    | ok man =>
-      have hop : pyOpen mfcls (some paths) w s = openedRes s mfcls files lastRW man := by
-        simp only [pyOpen, Option.getD_some, ho, hm]
-      rw [hop]
-      simp only [openedRes, openTail, pySetAllow, pyHasWritable, hasWritable, hfe, Bool.not_false,
-        Bool.true_and]
-      cases w <;> cases lastRW
-      · simp [pyCtor]
-      · simp [pyCtor]; rfl
-      · -- writable wanted, newest container committed → `create_patch`
-        simp only [Bool.true_and, Bool.not_false, if_true, Bool.false_eq_true, if_false]
-        rw [pyStep_last]
-        unfold pyCreatePatch
-        generalize hs' : ({ disk := s.disk, h := _, next := s.next } : State) = s'
-        have hd : s'.disk = s.disk := by rw [← hs']
-        by_cases hok : (createPatch s').out = .ok
-        · simp [hok, pyCtor]
-        · obtain ⟨h1, h2, h3, h4, h5⟩ := createPatch_fail s' hok
-          rcases hcp : createPatch s' with ⟨st, out, c, r, w⟩
-          rw [hcp] at h1 h2 h3 h4 h5 hok
-          cases out <;> simp_all [pyCtor, fail]
-      · simp [pyCtor]; rfl
-
-/-- `open_chain` for a tail given as any function that agrees with `openTail` -/
-theorem open_chain' (s : State) (mfcls : Bool) (paths : List Name) (m : Mode) (w : Bool)
-    (k : Res → Res) (hk : ∀ r1, k r1 = openTail w r1) (hw : w = (m != .r)) :
-    pyCtor s (pyStep { st := s, out := .ok } (pyOpen mfcls (some paths) w) k) =
-      openExisting s mfcls paths m := by
-  have hk' : k = openTail w := funext hk
-  subst hk' hw
-  exact open_chain s mfcls paths m
-
-/-- a constructor that consists of one model operation which, when it fails, leaves the handle alone -/
-theorem pyCtor_single (s : State) (op : State → Res)
-    (hh : (op s).out ≠ .ok → (op s).st.h = s.h) :
-    pyCtor s (pyStep (pyStart s) op fun r => r) = op s := by
-  rw [pyStep_start]
-  rcases hop : op s with ⟨st, out, c, rm, w⟩
-  rw [hop] at hh
-  rcases st with ⟨d, h, nx⟩
-  cases out <;> simp_all [pyCtor]
-
-theorem create_chain (s : State) (mfcls : Bool) (n : Name) (t : Bool) :
-    pyCtor s (pyStep (pyStart s) (pyCreate mfcls n t) fun r => r) = createRec s mfcls n t [] := by
-  apply pyCtor_single
-  unfold pyCreate createRec
-  dsimp only
-  split
-  · simp [fail]
-  · cases newContainer _ _ _ _ <;> simp
-
-/-- **the mode dispatch of `IH5Record.__init__`**: for every record argument (prefix path or
-file list), every mode and every on-disk situation, the translated constructor is the model's
-`openRec` (on a free handle slot; the model answers `busy` otherwise) -/
-theorem gen_init (s : State) (mfcls : Bool) (t : Target) (m : Mode) (hc : s.h.closed = true) :
-    Gen.FindFilesFns.init s mfcls t m = openRec s mfcls t m := by
-  unfold Gen.FindFilesFns.init openRec
-  simp only [hc, Bool.not_true, Bool.false_eq_true, if_false]
-  cases t with
-  | list fs =>
-    cases m <;> simp [modeStr, Gen.FindFilesFns.OPEN_MODES, pyTruthy, pyStart]
-    case r | rp | a =>
-      by_cases hfs : fs = []
-      · simp [hfs, pyCtor, pyRaise, fail]
-      · simp only [hfs, if_false]
-        refine open_chain' s mfcls fs _ _ _ (fun r1 => ?_) (by decide)
-        simp [openTail]
-    all_goals simp [pyCtor, pyRaise, fail]
-  | name n =>
-    cases m <;> simp [modeStr, Gen.FindFilesFns.OPEN_MODES, pyTruthy, pyStart]
-    case w | wm | x => exact create_chain s mfcls n _
-    all_goals
-      rw [gen_find_files]
-      cases hf : findFiles (names s.disk) n with
-      | none => simp [pyCall, pyCtor, pyRaise, fail]
-      | some l =>
-        cases l with
-        | nil =>
-          simp only [pyCall, if_true]
-          first
-            | exact create_chain s mfcls n false
-            | simp [pyCtor, pyRaise, fail]
-        | cons f fs =>
-          simp only [pyCall, reduceCtorEq, if_false]
-          refine open_chain' s mfcls (f :: fs) _ _ _ (fun r1 => ?_) (by decide)
-          simp [openTail]
 
 end MetadorModel.Bridge.FindFilesFns
